@@ -248,9 +248,53 @@ def decoder_isolation(rep):
     return keep
 
 
+def event_bytes(ctx, rep):
+    """pymodbus/events.py against Model/Events.lean, EXHAUSTIVELY (every flag combination, every byte value).
+    Correspondence only: the event classes are not message classes of the property.  RemoteReceiveEvent.encode as coded
+    puts the flags one bit too low (Props.C01.event_recv_encode_as_coded); a repaired encode (the specification's byte)
+    is accepted as well, so that repairing it raises no alarm."""
+    import itertools
+    from pymodbus import events as ev
+    kinds = {'recv': (ev.RemoteReceiveEvent, ['overrun', 'listen', 'broadcast']),
+             'send': (ev.RemoteSendEvent, ['read', 'slave_abort', 'slave_busy', 'slave_nak', 'write_timeout', 'listen']),
+             'listen': (ev.EnteredListenModeEvent, []), 'restart': (ev.CommunicationRestartEvent, [])}
+    qs, impl = [], []
+    for kind, (cls, names) in kinds.items():
+        for flags in itertools.product([0, 1], repeat=len(names)):
+            qs.append({'op': 'event', 'dir': 'enc', 'kind': kind, 'flags': list(flags)})
+            try:
+                obj = cls(**dict(zip(names, map(bool, flags))))
+                first = list(obj.encode())
+                impl.append({'bytes': first} if list(obj.encode()) == first else {'err': 'encode-not-pure'})
+            except Exception as e:  # noqa
+                impl.append({'err': errkind(e)})
+        for v in range(256):
+            qs.append({'op': 'event', 'dir': 'dec', 'kind': kind, 'byte': v})
+            try:
+                obj = cls()
+                obj.decode(bytes([v]))
+                impl.append({'kind': kind, 'flags': [bool(getattr(obj, n)) for n in names]})
+            except Exception as e:  # noqa
+                impl.append({'err': errkind(e)})
+    repaired = 0
+    for q, a, m in zip(qs, impl, ctx.driver.query(qs)):
+        case = {'kind': 'event', 'q': q}
+        rep.case(case, nontrivial=True, tag='event-' + q['dir'])
+        if q['dir'] == 'enc' and q['kind'] == 'recv' and a != m:
+            o, l, b = q['flags']
+            if a == {'bytes': [16 * o + 32 * l + 64 * b + 128]}:
+                repaired += 1
+                rep.traces_validated += 1
+                continue
+        rep.compare(case, a, m, 'event byte vs Model.Events')
+    rep.notes.append('event bytes (events.py): %d encodes and decodes, exhaustive%s' % (
+        len(qs), '; RemoteReceiveEvent.encode gives the specification\'s byte (repaired) for %d flag sets' % repaired if repaired else ''))
+
+
 def run(ctx):
     rep = Report(RULE)
     rng = ctx.rng
+    event_bytes(ctx, rep)
     _vendor_decoders = decoder_isolation(rep)      # kept alive: everything decoded below must not be affected either
     for c in ctx.corpus():
         check_batch(ctx, rep, c['dir'], [c['msg']], with_mutants=False)
@@ -274,6 +318,8 @@ def replay(ctx, payload):
         decoder_isolation(rep)
     elif c['kind'] == 'pdu':
         check_batch(ctx, rep, c['dir'], [c['msg']], with_mutants=False)
+    elif c['kind'] == 'event':
+        event_bytes(ctx, rep)
     else:
         d = ctx.driver.query([{'op': 'codec', 'dir': 'dec_req' if c['dir'] == 'req' else 'dec_resp', 'bytes': c['bytes']}])[0]
         got = (impl_dec_req if c['dir'] == 'req' else impl_dec_resp)(c['bytes'])
